@@ -342,6 +342,10 @@ class Interp:
             if isinstance(b, range):
                 res = isinstance(a, int) and a in b
                 return res if opn == "In" else not res
+            if isinstance(b, FlagV) and isinstance(a, FlagV):
+                # enum.Flag containment: a in b  <=>  a & b == a  (the empty flag is contained in every flag)
+                res = a.members <= b.members
+                return res if opn == "In" else not res
             raise Unsupported(f"membership in {b!r}")
         if opn in ("Eq", "NotEq"):
             if isinstance(a, AObj) and isinstance(b, AObj):
